@@ -34,11 +34,13 @@ def _inputs_for(tp, spec, rng, mode):
             base = (rng.standard_normal(shape) + 1j * rng.standard_normal(shape)).astype(dt)
         else:
             base = np.zeros(shape, dt)
-        if mode > 0 and dt.kind == "f" and base.size:
+        if mode > 0 and vals is None and dt.kind == "f" and base.size:      # explicit input_values carry domain constraints: kept
+            # adversarial values are assigned DETERMINISTICALLY (independent of the seed) so that findings are stable
             flat = base.astype(np.float64).reshape(-1).copy()
-            k = max(1, flat.size // 2) if mode == 1 else flat.size
-            idx = rng.choice(flat.size, size=k, replace=False)
-            flat[idx] = rng.choice(SPECIAL, size=k)
+            n = len(SPECIAL)
+            for j in range(flat.size):
+                if mode == 2 or j % 2 == 0:
+                    flat[j] = SPECIAL[(j * (3 if mode == 1 else 7) + 5 * i + mode) % n]
             base = flat.reshape(base.shape).astype(dt)
         out.append(base)
     return out
@@ -111,7 +113,8 @@ def sweep_case(job):
             return {"key": key, "status": "skipped", "why": "symbolic dims (covered by C04)"}
         if any(np.dtype(s.dtype).kind == "c" for s in spec):
             return {"key": key, "status": "skipped", "why": "complex inputs (not feedable to ORT)"}
-        if ".random." in key or "random_" in key or "dropout" in key.lower():
+        low = key.lower()
+        if any(t in low for t in (".random.", "random_", "dropout", "training", "stochastic", "truncated_normal", "initializer", "bfloat16")):
             return {"key": key, "status": "skipped", "why": "stochastic component"}
         fn = exports.tp_callable(tp, dp)
         rng = np.random.default_rng(seed + idx)
@@ -142,11 +145,17 @@ def sweep_case(job):
                 return {"key": key, "status": "skipped", "why": "onnxruntime lacks a kernel / opset for this model: " + msg[:100]}
             return {"key": key, "status": "ort_load_error", "why": msg[:160]}
         names = [i.name for i in sess.get_inputs()]
-        rtol = float(tp.get("rtol", tp.get("rtol_f64", 1e-3)) or 1e-3) if False else (1e-7 if dp else 2e-3)
-        atol = 1e-9 if dp else 2e-4
+        rtol = float(tp.get("rtol", tp.get("rtol_f64", 1e-3)) or 1e-3) if False else (1e-5 if dp else 2e-3)
+        atol = 1e-6 if dp else 2e-4
+        nchw_in = set(tp.get("inputs_as_nchw") or [])
+        nchw_out = set(tp.get("outputs_as_nchw") or [])
         for mode, xs, ref in zip(modes, feeds, refs):
             if isinstance(ref, tuple):
                 continue
+            if nchw_out:
+                ref = [np.transpose(r, (0, 3, 1, 2)) if (j in nchw_out and np.ndim(r) == 4) else r for j, r in enumerate(ref)]
+            if nchw_in:
+                xs = [np.transpose(x, (0, 3, 1, 2)) if (j in nchw_in and np.ndim(x) == 4) else x for j, x in enumerate(xs)]
             try:
                 fx = []
                 for nm, x, i in zip(names, xs, sess.get_inputs()):
@@ -174,7 +183,8 @@ def sweep_case(job):
                     gf, rf = g.astype(np.float64), r.astype(np.float64)
                     fin = np.isfinite(rf) & np.isfinite(gf)
                     bad_special = (np.isnan(rf) != np.isnan(gf)) | (np.isinf(rf) & ~np.isnan(gf) & (gf != rf))
-                    close = np.isclose(gf, rf, rtol=rtol, atol=atol, equal_nan=True)
+                    rt, at = (rtol, atol) if mode == 0 else (5e-2, 5e-3)     # adversarial modes: only gross (semantic) differences
+                    close = np.isclose(gf, rf, rtol=rt, atol=at, equal_nan=True)
                     if (~close & fin).any():
                         k = int(np.argmax(~close & fin))
                         res.update(status="mismatch", mode=mode, output=j,
